@@ -8,6 +8,7 @@ import (
 	"fmt"
 	"os"
 	"path/filepath"
+	"runtime"
 	"sync"
 	"sync/atomic"
 	"syscall"
@@ -58,6 +59,17 @@ type ShardResult struct {
 	FpCapped      bool             `json:"fp_capped"`
 	WallS         float64          `json:"wall_s"`
 	Completed     bool             `json:"completed"`
+	// Stalled: the shard gave up on this case (partial result; the supervisor restarts the shard behind it)
+	Stalled *StalledCase `json:"stalled,omitempty"`
+}
+
+// StalledCase is a case that was in flight for longer than the stall limit.
+type StalledCase struct {
+	Class   string  `json:"class"`
+	KeyHex  string  `json:"key_hex"`
+	Index   int64   `json:"index"`
+	Seconds float64 `json:"seconds"`
+	Stack   string  `json:"stack,omitempty"`
 }
 
 type shardStats struct {
@@ -171,8 +183,10 @@ func (s *shardStats) record(p *Prop, class string, key []byte, o *Obs) {
 // death of the process (worker-goroutine panic, fatal runtime error, kill).
 
 type slot struct {
-	seq atomic.Uint64 // first field and an atomic type: 64-bit aligned on 32-bit targets too
-	mem []byte
+	seq     atomic.Uint64 // first field and an atomic type: 64-bit aligned on 32-bit targets too
+	started [maxWorkers]atomic.Int64 // unix nanoseconds at which the worker's current case began (0: idle)
+	index   [maxWorkers]atomic.Int64
+	mem     []byte
 }
 
 func openSlot(path string) (*slot, error) {
@@ -191,10 +205,12 @@ func openSlot(path string) (*slot, error) {
 	return &slot{mem: mem}, nil
 }
 
-func (s *slot) begin(worker int, class string, key []byte) {
+func (s *slot) begin(worker int, class string, key []byte, idx int64) {
 	if s == nil {
 		return
 	}
+	s.index[worker].Store(idx)
+	s.started[worker].Store(time.Now().UnixNano())
 	m := s.mem[worker*slotSize : (worker+1)*slotSize]
 	binary.LittleEndian.PutUint64(m[0:], s.seq.Add(1))
 	if 24+len(class)+len(key) > len(m) {
@@ -211,6 +227,7 @@ func (s *slot) end(worker int) {
 	if s == nil {
 		return
 	}
+	s.started[worker].Store(0)
 	binary.LittleEndian.PutUint32(s.mem[worker*slotSize+8:], 0)
 }
 
@@ -248,14 +265,18 @@ func readSlot(path string) []inflightCase {
 // of one shard and writes the result files into dir.
 func RunChild(p *Prop, tier string, seed int64, shard, nshards int, build, dir string) error {
 	base := filepath.Join(dir, fmt.Sprintf("%s-%d", build, shard))
+	if a := envInt("VERIF_ATTEMPT", 0); a > 0 {
+		base += fmt.Sprintf("-r%d", a)
+	}
 	sl, err := openSlot(base + ".slot")
 	if err != nil {
 		return err
 	}
 	st := newShardStats(p.ID, build, shard)
 	g := &Gen{Tier: tier, Seed: seed, Shard: shard, NShards: nshards, Build: build,
-		Rng: SubRng(seed, p.ID, fmt.Sprint(shard)), prop: p, st: st, slot: sl}
+		Rng: SubRng(seed, p.ID, fmt.Sprint(shard)), prop: p, st: st, slot: sl, from: envInt("VERIF_FROM", 0)}
 	t0 := time.Now()
+	go stallMonitor(p, tier, sl, st, base, t0)
 	var wg sync.WaitGroup
 	if n := p.Parallel; n > 1 {
 		if n > maxWorkers {
@@ -267,7 +288,7 @@ func RunChild(p *Prop, tier string, seed int64, shard, nshards int, build, dir s
 			go func(w int) {
 				defer wg.Done()
 				for it := range g.work {
-					g.run(w, it.class, it.key)
+					g.run(w, it.class, it.key, it.idx)
 				}
 			}(w)
 		}
@@ -295,4 +316,86 @@ func RunChild(p *Prop, tier string, seed int64, shard, nshards int, build, dir s
 		return err
 	}
 	return os.WriteFile(base+".json", js, 0o644)
+}
+
+// stallMonitor gives up on a case that has been in flight for longer than the stall limit: it writes the
+// partial result of the shard (with the stalled case) and ends the process with exit status 4. The
+// supervisor reports the case as INCONCLUSIVE and restarts the shard behind it. The limit is a generous
+// wall-clock bound and never the source of a violation verdict.
+func stallMonitor(p *Prop, tier string, sl *slot, st *shardStats, base string, t0 time.Time) {
+	limit := p.StallQuick
+	if tier == "thorough" {
+		limit = p.StallThorough
+	}
+	if limit == 0 {
+		limit = 150
+		if tier == "thorough" {
+			limit = 900
+		}
+	}
+	if v := envInt("VERIF_STALL", 0); v > 0 {
+		limit = int(v)
+	}
+	minLimit := limit
+	for _, c := range p.StallClass {
+		if c < minLimit {
+			minLimit = c
+		}
+	}
+	for {
+		time.Sleep(500 * time.Millisecond)
+		now := time.Now().UnixNano()
+		for w := 0; w < maxWorkers; w++ {
+			t := sl.started[w].Load()
+			if t == 0 || now-t < int64(minLimit)*int64(time.Second) {
+				continue
+			}
+			idx := sl.index[w].Load()
+			var class string
+			var key []byte
+			for _, c := range readSlotMem(sl.mem[w*slotSize : (w+1)*slotSize]) {
+				class, key = c.class, c.key
+			}
+			if sl.started[w].Load() != t {
+				continue
+			}
+			lim := limit
+			if c, ok := p.StallClass[class]; ok && envInt("VERIF_STALL", 0) == 0 {
+				lim = c
+			}
+			if now-t < int64(lim)*int64(time.Second) {
+				continue
+			}
+			buf := make([]byte, 1<<20)
+			buf = buf[:runtime.Stack(buf, true)]
+			st.mu.Lock() // held until the process ends: no further case is recorded
+			st.res.WallS = time.Since(t0).Seconds()
+			st.res.OutDigest = hex.EncodeToString(st.digest[:])
+			st.res.Stalled = &StalledCase{Class: class, KeyHex: hex.EncodeToString(key), Index: idx,
+				Seconds: float64(now-t) / 1e9, Stack: trimStack(string(buf))}
+			fb := make([]byte, 0, 8*len(st.fps))
+			var b [8]byte
+			for fp := range st.fps {
+				binary.LittleEndian.PutUint64(b[:], fp)
+				fb = append(fb, b[:]...)
+			}
+			os.WriteFile(base+".fp", fb, 0o644)
+			js, _ := json.Marshal(&st.res)
+			os.WriteFile(base+".json", js, 0o644)
+			fmt.Fprintf(os.Stderr, "STALLED case %d class=%s after %d s\n%s\n", idx, class, lim, buf)
+			os.Exit(4)
+		}
+	}
+}
+
+func readSlotMem(m []byte) []inflightCase {
+	if binary.LittleEndian.Uint32(m[8:]) != 1 {
+		return nil
+	}
+	cl := int(binary.LittleEndian.Uint32(m[12:]))
+	kl := int(binary.LittleEndian.Uint32(m[16:]))
+	if 20+cl+kl > len(m) {
+		return nil
+	}
+	return []inflightCase{{binary.LittleEndian.Uint64(m[0:]), string(m[20 : 20+cl]), append([]byte(nil), m[20+cl:20+cl+kl]...)}}
 }
